@@ -17,8 +17,9 @@ Oracle (independent of the model, on the real run): callback once per started te
 concurrent; same tensor object never evaluated concurrently; bytes identical to the serial save;
 materialised bytes <= budget + largest tensor; the exception reaches the caller only after all pool
 threads stopped with the budget fully released and all locks free; no deadlock (some thread is
-always enabled until the call returns).  The same clauses are checked under plain OS-scheduled runs
-(no shim), which also cover the nested shard x parallel writer that the model does not have.
+always enabled until the call returns); the external tensors returned for the initializers (file,
+offset, length, name per input position) equal the serial save's and read back the right bytes.  The
+same clauses are checked under plain OS-scheduled runs (no shim).
 """
 from __future__ import annotations
 
@@ -47,13 +48,15 @@ THEOREMS = [
     "IrVerif.Writer.layoutb_sound",
     "IrVerif.WriterN.C09_budget",
     "IrVerif.WriterN.C09_callback_mutex",
-    "IrVerif.WriterN.C09_callback_once_partial",
+    "IrVerif.WriterN.C09_callback_once",
     "IrVerif.WriterN.C09_tensor_mutex",
     "IrVerif.WriterN.C09_deadlock_free",
     "IrVerif.WriterN.C09_terminates",
     "IrVerif.WriterN.C09_schedule_bounded",
     "IrVerif.WriterN.C09_maximal_terminal",
     "IrVerif.WriterN.C09_error_quiescent",
+    "IrVerif.WriterN.C09_bytes_serial",
+    "IrVerif.WriterN.layoutb_sound",
     "IrVerif.WriterN.wfb_sound",
 ]
 ASSUMPTIONS = [
@@ -63,8 +66,9 @@ ASSUMPTIONS = [
     "granularity: one model step per blocking operation or user-code body; a critical section of the condition's "
     "own lock contains no blocking operation and is one step",
     "pool threads are interchangeable (an idle pool thread has no identity in the model)",
-    "the nested case (shard drivers that each run a parallel writer, workers_per_shard >= 2) is not in the model: "
-    "OS-scheduled differential runs + oracle only",
+    "two models: IrVerif.Writer (flat: single-file parallel writer; shard drivers with serial writers) and the "
+    "general IrVerif.WriterN (a tree of pools: also shard drivers that each run a parallel writer, "
+    "workers_per_shard >= 2); every controlled run is compared with the general model, flat runs with both",
 ]
 
 STEP_TIMEOUT = 40.0  # one controlled step (microseconds of work) not reaching its next park point
